@@ -24,11 +24,12 @@ import verilog_mech as M
 import verilog_doc as D
 import verilog_wild as WILD
 import verilog_emit as E
+import verilog_lex as LEX
 
-OWN_COQ = ['Fmt/VBits.v', 'Fmt/VExpr.v', 'Fmt/VDoc.v', 'Fmt/VTop.v', 'Fmt/VElab.v', 'Fmt/VEmit.v', 'Fmt/VSpec.v', 'Fmt/VSem.v', 'Proofs/VerilogLists.v', 'Proofs/VerilogSlice.v',
+OWN_COQ = ['Fmt/VBits.v', 'Fmt/VExpr.v', 'Fmt/VDoc.v', 'Fmt/VLex.v', 'Fmt/VTop.v', 'Fmt/VElab.v', 'Fmt/VEmit.v', 'Fmt/VSpec.v', 'Fmt/VSem.v', 'Proofs/VerilogLists.v', 'Proofs/VerilogSlice.v',
            'Proofs/VerilogGrow.v', 'Proofs/VerilogPort.v', 'Proofs/VerilogAssign.v', 'Proofs/VerilogTop.v', 'Proofs/VElabBase.v', 'Proofs/VElabInv.v',
            'Proofs/VElabWf.v', 'Proofs/VElabExpr.v', 'Proofs/VElabConn.v', 'Proofs/VElabAssign.v', 'Proofs/VElabPorts.v', 'Proofs/VElabNets.v',
-           'Proofs/VElabTop.v', 'Proofs/VElabStable.v', 'Proofs/VEmitRound.v', 'Proofs/VEmitLemmas.v', 'Props/C04.v', 'Props/C06.v', 'Extract/ExtractVerilog.v']
+           'Proofs/VElabTop.v', 'Proofs/VElabStable.v', 'Proofs/VEmitRound.v', 'Proofs/VEmitLemmas.v', 'Proofs/VLexProofs.v', 'Props/C04.v', 'Props/C06.v', 'Extract/ExtractVerilog.v']
 CORPUS = os.path.join(common.CORPUS, 'verilog')
 EXAMPLES = os.path.join(common.REPO, 'example_netlists', 'verilog_netlists')
 QUICK_FILES = ['4bitadder', 'TMR_hierarchy', 'adder', 'b13', 'basic_clock_crossing', 'carrychain', 'fourBitCounter',
@@ -39,6 +40,7 @@ BUDGET = {  # (mechanism cases, generated designs, port-level round trips)
     'C04': {'quick': (2500, 300, 400), 'thorough': (40000, 2500, 6000)},
     'C06': {'quick': (2500, 420, 0), 'thorough': (40000, 40000, 0)},
 }
+LEX_DAMAGED = {'quick': 3000, 'thorough': 60000}   # C06: character-level damaged texts, tokenizer model vs VerilogTokenizer only
 WILD_BUDGET = {'quick': 500, 'thorough': 12000}   # C06: documents outside the input class, model vs reader only
 OPTION_SETS = [{}, {'write_blackbox': False}, {'defparam': True}, {'definition_list': 'work-modules'}]
 
@@ -180,6 +182,8 @@ class Run:
         self.docq = []          # document-level correspondence: (source, design, real outcome)
         self.doc = {'compared': 0, 'disagreements': 0, 'unsupported': collections.Counter(), 'inexpressible': collections.Counter(),
                     'outcomes': collections.Counter(), 'wild_mutations': collections.Counter()}
+        # character-level correspondence (Fmt/VLex.v vs VerilogTokenizer): C06 only, every text of the run
+        self.lex = LEX.LexCheck(seed, LEX_DAMAGED[tier]) if prop == 'C06' else None
 
     # ---- reporting of oracle items
     def handle_items(self, source, items, payload, shrink=None):
@@ -227,6 +231,8 @@ class Run:
 
     # ---- document-level correspondence: the design as a vdoc through the extracted elab, the text through sdn.parse
     def doc_enqueue(self, source, design, text, netlist=None):
+        if self.lex is not None:
+            self.lex.add(source, text)
         line, why = D.design_to_line(design)
         if line is None:
             self.doc['inexpressible'][why] += 1
@@ -397,6 +403,7 @@ class Run:
             self.n_programs += 1
             self.stats['bundled files'] += 1
             if self.prop == 'C06':
+                self.lex.add_file('file-' + name, path)
                 items, n = O.c06_file_items(path)
                 self.n_eval += 1
                 if items:
@@ -492,6 +499,14 @@ def run(prop, tier, seed, replay):
             r.rep.violation('doc-crash', {'kind': 'correspondence-broken', 'level': 'document',
                                           'what': 'the document-level correspondence could not be carried out',
                                           'traceback': traceback.format_exc()[-3000:]}, found_input=False)
+    if prop == 'C06' and ok:
+        try:
+            r.lex.report(r.lex.finish(r), r)
+        except Exception:  # noqa
+            import traceback
+            r.rep.violation('lex-crash', {'kind': 'lexer-correspondence', 'level': 'characters',
+                                          'what': 'the character-level correspondence could not be carried out',
+                                          'traceback': traceback.format_exc()[-3000:]}, found_input=False)
     wall = time.time() - t0
     theorems = proof['theorems']
     coverage = {
@@ -500,9 +515,9 @@ def run(prop, tier, seed, replay):
         'trusted_base': [
             'Coq 8.16.1 kernel (coqc); vm_compute only inside Example witnesses; no axioms: every theorem of Props/%s.v prints "Closed under the global context"' % prop,
             'extraction: ExtrOcamlBasic only; nat/Z/positive extracted as inductives; ocaml/driver_verilog.ml (parsing/printing)',
-            'the models coq/theories/Fmt/VBits.v, VExpr.v, VTop.v, VElab.v, VEmit.v are hand-written: tied to /repo only by the correspondence runs counted below (mechanism level and document level)',
+            'the models coq/theories/Fmt/VBits.v, VExpr.v, VTop.v, VElab.v, VEmit.v, VLex.v are hand-written: tied to /repo only by the correspondence runs counted below (mechanism level, document level, character level)',
             'harness/verilog_gen.py (generator, independent writer, meaning of a design), harness/verilog_world.py (canonical description, WF), harness/verilog_oracles.py, harness/verilog_mech.py',
-            'character-level tokenisation (TokenFactory) and the recursive descent from tokens to the document value are NOT modelled in Coq: the generator produces the document value and its text together (harness/verilog_gen.py writer, harness/verilog_doc.py converter are trusted glue); the document-level WRITER is modelled (Fmt/VEmit.v) and tied to Composer by harness/verilog_emit.py, whose reader of the composer\'s output text (tokens -> vdoc) and netlist -> ordered value converter are trusted glue',
+            'character-level tokenisation (TokenFactory.add_character / flush, VerilogTokenizer.generate_tokens / peek) IS modelled in Coq (Fmt/VLex.v) and compared with VerilogTokenizer token by token on every text of a C06 run (harness/verilog_lex.py, counted under "lexer"); the recursive descent from tokens to the document value is NOT modelled: the generator produces the document value and its text together (harness/verilog_gen.py writer, harness/verilog_doc.py converter remain trusted glue between the token stream and the vdoc); the document-level WRITER is modelled (Fmt/VEmit.v) and tied to Composer by harness/verilog_emit.py, whose reader of the composer\'s output text (tokens -> vdoc) and netlist -> ordered value converter are trusted glue',
             'CPython 3.12 list/dict semantics',
         ],
         'theorems': theorems, 'print_assumptions': proof['assumptions'][-2500:],
@@ -518,6 +533,7 @@ def run(prop, tier, seed, replay):
             'compared': r.doc['compared'], 'disagreements': r.doc['disagreements'],
             'skipped_outside_modelled_subset': dict(r.doc['unsupported']), 'skipped_not_expressible_as_vdoc': dict(r.doc['inexpressible']),
             'implementation_outcomes': dict(r.doc['outcomes']), 'wild_mutations_applied': dict(sorted(r.doc['wild_mutations'].items()))},
+        'lexer': r.lex.evidence() if r.lex is not None else {'note': 'C06 only'},
         'writer_correspondence': {
             'what': 'C04: every netlist the run writes (generated designs, corpus, bundled files, transforms, options) as an ordered netlist value -> '
                     'extracted VEmit.emit vs the text of the real Composer read token by token into a vdoc (harness/verilog_emit.py): documents or '
@@ -539,6 +555,11 @@ def run(prop, tier, seed, replay):
               prop, tier, r.n_programs, len(r.distinct), r.n_eval, r.mech.get('cases', 0), r.mech.get('disagreements', 0),
               r.doc['compared'], r.doc['disagreements'], sum(r.doc['unsupported'].values()),
               dict(r.known_hits), 'ok' if (ok and proof['ok']) else 'BROKEN', len(theorems), wall))
+    if prop == 'C06':
+        lx = r.lex.evidence()
+        print('C06 tokenizer model: %d texts (%d characters, %d tokens, %d seen by the parser) Fmt/VLex.v vs VerilogTokenizer, %d disagreements, %d non-ASCII skipped, %.1fs; classes %s' % (
+            lx['texts_compared'], lx['characters'], lx['raw_tokens_compared'], lx['seen_tokens_compared'], lx['disagreements'],
+            lx['non_ascii_skipped'], lx['wall_s'], lx['token_classes']))
     if prop == 'C04':
         print('C04 writer model: %d written netlists (%d modules) emit vs Composer, %d disagreements; re-read compared on %d; rt_check true on %d, writable %d; '
               'outside the modelled subset %d, not expressible %d' % (
@@ -556,6 +577,10 @@ def replay_file(prop, path, seed):
         print('model          :', M.run_model([cmd])[0])
         print('recorded impl  :', obj['first_difference']['impl'])
         return 1
+    if obj.get('kind') == 'lexer-correspondence':
+        lc = LEX.replay(obj, r)
+        print(json.dumps({'violations': r.rep.violations, 'lexer': lc.evidence()}, indent=1))
+        return r.rep.exit_code()
     if obj.get('level') == 'document' and 'design' in obj:
         r.doc_enqueue('replay', obj['design'], obj.get('text') or G.render(obj['design'], random.Random('shrink'), noisy=False))
     elif 'design' in obj:
